@@ -22,6 +22,8 @@ CLAIMED = {
          "Go regexp (modelled by the scanner; exhaustive to length 6/8 over the alphabet in the harness); the zero result next to an error (asserted by the harness on every parse op)"),
  "C04": ("text_roundtrip, json_roundtrip (object, string and number forms through the modelled encoding/json tokenizer), string_roundtrip, pretty_roundtrip for every s < 2^64 and all 8 switch settings under the generated default rules/limits (and any limit the output fits, any MaxObjectKeys that is 0 or ≥ 2); marshal_length_le (every output ≤ 43 bytes ≤ default limit)",
          "nesting in encoding/json containers (struct fields, slices, maps) — real encoding/json, harness only; the tokenizer model itself is validated by correspondence (json.tokens lines)"),
+ "C05": ("layout (length 36/45, hyphens, every digit position holds the lower-case hex digit of the big-endian nibble), roundtrip incl. upper-case digits and every casing of `urn`, accepts_iff (the exact acceptance set), strict (accepted ⇒ normalised text = canonical text), the error theorems (too_long, bad_length, urn_disabled, bad_prefix, bad_hyphen, bad_digit with the offending byte, error_classes), never_panic, version_field / variant_field as nibbles 12 and 16 of the text; starts_shape and the other generated constants — all kernel-only (no bv_decide)",
+         "fmt's %0Nx (modelled by padHex, validated by correspondence); the zero ID next to an error (asserted by every uu.parse op)"),
  "C06": ("compare_is_spec: the comparator equals an independent statement of SemVer §11 on all versions outside the excluded region (validity not needed); the excluded region is exactly the property's; the specification's example chain in both spec and model; entry points = parse then compare",
          "Go regexp used by Valid/isNumeric (modelled by predicates, validated by correspondence)"),
  "C10": ("accepts_iff: acceptance ⇔ limit ∧ (empty ∧ rule) ∨ upper-cased text = M^k ++ three group forms, value = sum mod 2^64 (no mod needed below 2^54 bytes); case_invariant; valid_iff_parse; error classes; no panic",
